@@ -64,7 +64,7 @@ def tolerances():
         'REL': 1e-4 if f32 else 1e-9,         # cached floats
         'EPS': 1.2e-7 if f32 else 2.3e-16,
         'END': 1000,                          # inserted points at least 1/END (relative) away from vertices / edges
-        'MARG': 10**6,                        # margin of strict convexity / clear containment
+        'MARG': 10**3 if f32 else 10**6,      # margin of strict convexity / clear containment (sine of the turn at a corner)
     }
 
 def sub(a, b): return (a[0] - b[0], a[1] - b[1], a[2] - b[2])
@@ -325,9 +325,8 @@ def _derived(cx, s, REL, EPS):
         return 'ok'
     t = s.t
     vals = [OC.to_float(x) for x in t[14:22]]
-    if not all(math.isfinite(x) for x in vals):
-        return ('cached-value-not-finite', 'a cached value (aspect ratio / circumcentre / centroid / area) is not finite')
     ar, cc, cen, area = vals[0], vals[1:4], vals[4:7], vals[7]
+    fin = math.isfinite
     cr = cross(ab, ac)
     cr2 = dot(cr, cr)
     A = 0.5 * math.sqrt(cr2)
@@ -340,6 +339,8 @@ def _derived(cx, s, REL, EPS):
     noise = EPS * M / lmin
     tol = REL + 64 * EPS * cond + 64 * noise * (L * L / A)
     if tol < 0.01:
+        if not (fin(area) and fin(ar)):
+            return ('cached-value-not-finite', 'the cached area / aspect ratio of a well-shaped triangle is not finite')
         if abs(area - A) > tol * A:
             return ('cached-area-wrong', 'cached area %.17g, exact %.17g' % (area, A))
         R = la * lb * lc / (4 * A)
@@ -347,7 +348,7 @@ def _derived(cx, s, REL, EPS):
             return ('cached-aspect-ratio-wrong', 'cached aspect ratio %.17g, exact %.17g' % (ar, R / lmin))
     for k in range(3):
         ex = (fa[k] + fb[k] + fc[k]) / 3
-        if abs(cen[k] - ex) > REL * M + 8 * EPS * M:
+        if not fin(cen[k]) or abs(cen[k] - ex) > REL * M + 8 * EPS * M:
             return ('cached-centroid-wrong', 'cached centroid coordinate %d is %.17g, exact %.17g' % (k, cen[k], ex))
     if L * L / A < 1e3:
         # circumcentre = a + ((ab x ac) x ab |ac|^2 + ac x (ab x ac) |ab|^2) / (2 |ab x ac|^2)
@@ -356,7 +357,7 @@ def _derived(cx, s, REL, EPS):
         R = la * lb * lc / (4 * A)
         for k in range(3):
             ex = fa[k] + (t1[k] * ac2 + t2[k] * ab2) / (2 * cr2)
-            if abs(cc[k] - ex) > (REL + 64 * EPS * cond + 64 * noise * (L * L / A)) * (M + R) * 4:
+            if not fin(cc[k]) or abs(cc[k] - ex) > (REL + 64 * EPS * cond + 64 * noise * (L * L / A)) * (M + R) * 4:
                 return ('cached-circumcentre-wrong', 'cached circumcentre coordinate %d is %.17g, exact %.17g' % (k, cc[k], ex))
     return 'ok'
 
@@ -494,12 +495,12 @@ def judge_fa(cx, st, step, g):
     status, j, q = flip_quad(cx, st, i, e)
     some = g.startswith('ok some')
     if status != 'free':
-        if some: return ('flip-offered-on-fixed-edge', 'get_flipped_aspect_ratio offers to flip edge %d of slot %d, which is %s' % (e, i, 'constrained' if status == 'constrained' else 'a boundary edge')), True, False
+        if some: return ('flipped-aspect-ratio-offers-fixed-edge', 'get_flipped_aspect_ratio offers to flip edge %d of slot %d, which is %s' % (e, i, 'constrained' if status == 'constrained' else 'a boundary edge')), True, False
         return None, True, False
     k = quad_class(cx, [cx.P2[x] for x in q], cx.sg)
     if k == 'band': return None, False, False
     if k == 'nonconvex':
-        if some: return ('flip-offered-on-nonconvex-quad', 'get_flipped_aspect_ratio offers to flip edge %d of slot %d although the quadrilateral is not convex' % (e, i)), True, False
+        if some: return ('flipped-aspect-ratio-offers-nonconvex-flip', 'get_flipped_aspect_ratio offers to flip edge %d of slot %d although the quadrilateral is not convex' % (e, i)), True, False
         return None, True, False
     if not some: return None, False, False     # refusing a convex flip keeps the mesh conforming
     x = OC.to_float(g.split(' ')[2])
@@ -728,6 +729,7 @@ def judge_is_convex(ln):
     if L2 == 0 or min(l2) * 10**12 < L2: return ('skip', 'degenerate')
     det = OC.vdot(e[0], OC.vcross(OC.vsub(p[2], p[0]), OC.vsub(p[3], p[0])))
     ONP = 10**4 if OC.FMT.name == 'f32' else 10**9
+    BAND2 = 10**6 if OC.FMT.name == 'f32' else 10**12      # sine of the turn at a corner below 1e-3 (f32) / 1e-6: undecided
     if det * det * ONP * ONP > L2 ** 3: return ('skip', 'non-coplanar')
     n = [OC.vcross(e[k], e[(k + 1) % 4]) for k in range(4)]      # turn at vertex k+1
     N = max(n, key=OC.vnorm2)
@@ -735,11 +737,13 @@ def judge_is_convex(ln):
     signs = []
     for k in range(4):
         d = OC.vdot(n[k], N)
-        if d * d * 10**12 < OC.vnorm2(N) * l2[k] * l2[(k + 1) % 4]: return ('skip', 'band')
+        if d * d * BAND2 < OC.vnorm2(N) * l2[k] * l2[(k + 1) % 4]: return ('skip', 'band')
         signs.append(d > 0)
     exp = all(signs) or not any(signs)
     if got == exp: return ('ok', '')
-    if exp: return ('fail', 'is-convex-rejects-convex-quad', 'a strictly convex planar quadrilateral (every corner turns by more than 1e-6) is reported as not convex')
+    if exp:
+        big = max(math.sqrt(float(OC.vnorm2(x))) for x in n)
+        return ('fail', 'is-convex-rejects-convex-quad', 'a strictly convex planar quadrilateral (the sine of the turn at every corner exceeds %s; largest corner cross product %.3g) is reported as not convex' % ('1e-3' if OC.FMT.name == 'f32' else '1e-6', big))
     return ('fail', 'is-convex-accepts-nonconvex-quad', 'a quadrilateral with a reflex corner / crossing sides is reported as convex')
 
 # ------------------------------------------------------------------------------------------------ entry points
